@@ -471,3 +471,7 @@ func verif_C04_slow_line() {
 	verifAssert((be.count("Mail") == 1) == (complete >= 2) && (be.count("Rcpt") == 1) == (complete >= 3), "C04.slow-line-no-fragment-executed")
 	verifReach("C04.slow-line-end")
 }
+
+// verif_C04_lmtp_case: "a negative reply carries that message's own error", per
+// recipient (see verifLMTPCase in zz_verif_c13.go).
+func verif_C04_lmtp_case() { verifLMTPCase("C04") }
